@@ -27,13 +27,13 @@ func (funcResults FuncResults) String() string {
 	return buf.String()
 }
 
-func (funcResults FuncResults) Concat(funcResults2 FuncResults) (finalFuncResults FuncResults) {
-	if len(finalFuncResults) == len(funcResults2) {
+func (funcResults FuncResults) Concat(funcResults2 FuncResults) FuncResults {
+	if len(funcResults) == len(funcResults2) {
 		for i, results := range funcResults2 {
 			funcResults[i] = slices.Concat(funcResults[i], results)
 		}
 	}
-	return finalFuncResults
+	return funcResults
 }
 
 // TypeAndValues
